@@ -119,8 +119,67 @@ def charge_args(prog, f, ctx):
     return out
 
 
+def ins_total_provenance(ctx):
+    """the instruction count the variable fee is computed from is the message's counter, read on every
+    successful path (a fast path that returns the stats before the counter is read charges the base only)"""
+    prog = ctx.prog
+    from sa.cfg import cfg as _cfg
+    from sa.util import table as _table
+    for ep, fid in (('get_block_headers', API + 'get_block_headers::get_block_headers_internal'), ('get_utxos', API + 'get_utxos::get_utxos_from_chain')):
+        f = ctx.fn('R2', fid)
+        if not f:
+            continue
+        g = _cfg(f)
+        writes = []
+        for bi, b in enumerate(f.blocks):
+            if b.get('cleanup'):
+                continue
+            t = b['term']
+            if t['k'] == 'call' and t.get('dst') and any(isinstance(e_, dict) and e_.get('field') == 'ins_total' for e_ in t['dst']['p']) and \
+                    (norm_callee(t) or '').endswith('runtime::performance_counter'):
+                writes.append(bi)
+            for st in b['stmts']:
+                if any(isinstance(e_, dict) and e_.get('field') == 'ins_total' for e_ in st['dst']['p']):
+                    v = ex(prog, f).rvalue(st['rv']) if 'rv' in st else None
+                    if v is not None and P.call('*::performance_counter')(v):
+                        writes.append(bi)
+        oks = [r for r in _table(prog, f) if P.agg(variant='Ok')(r[1])]
+        good = bool(writes) and bool(oks) and all(any(g.dominates(w, r[0]) for w in writes) for r in oks)
+        ctx.check(good, 'R2', 'ins-total-read-on-every-success:' + ep, f.where(writes[0]) if writes else f,
+                  '%s: stats.ins_total = performance_counter() dominates every Ok return' % ep,
+                  '%s can return Ok with stats.ins_total never read from the instruction counter: the call is charged the base fee only' % ep)
+
+
+def norm_callee(t):
+    from sa.facts import const_of, norm
+    c = const_of(t['func']) or {}
+    return norm(c.get('resolved') or c.get('fn') or '')
+
+
+def send_transaction_charges_first(ctx):
+    """send_transaction charges base + per_byte * len before it can return anything (also for payloads it
+    is going to refuse)"""
+    prog = ctx.prog
+    from sa.cfg import cfg as _cfg
+    from sa.util import return_blocks as _rets
+    fs = [c.fn for c in prog.callers('ic_btc_canister::runtime::call_send_transaction_internal') if not c.cleanup]
+    if len(fs) != 1:
+        ctx.unknown('R4', 'send_transaction-charges-first', '', 'send_transaction body not found')
+        return
+    F = fs[0]
+    ctx.touch(F)
+    g = _cfg(F)
+    ch = [c for c in F.calls_to('ic_btc_canister::charge_cycles') if not c.cleanup]
+    rets = _rets(F)
+    good = len(ch) == 1 and bool(rets) and all(g.dominates(ch[0].bb, r) for r in rets)
+    ctx.check(good, 'R4', 'send_transaction-charges-first', ch[0] if ch else F, 'every return of send_transaction (Ok or Err) is dominated by the charge',
+              'send_transaction can return without charging: a refused payload costs nothing')
+
+
 def r2(ctx):
     prog = ctx.prog
+    ins_total_provenance(ctx)
+    send_transaction_charges_first(ctx)
     for ep, fid, pre in (('get_utxos', API + 'get_utxos::get_utxos_private', 'get_utxos'), ('get_block_headers', API + 'get_block_headers::get_block_headers', 'get_block_headers')):
         f = ctx.fn('R2', fid)
         if not f:
